@@ -6,6 +6,7 @@ Shared driver for M-Sys (`qm_c04`, `qm_c03`). Requests (one S-expression line ea
   (init <n> <req> (<script> …))      start `Sys.init n prog req`;        → snapshot
        script = (<act> …); act = (send r tag seq) | (spawn fn (r …)) | (select (<src> …)) | fail
        src = (proc r) | (recv any) | (recv tag k) | (recv range lo hi) | (timeout ms)
+  (cfg exit-reports on|off)          variant of the runtime (default: the code at HEAD)
   (mode current|replace-answers|mark-active-on-empty|wake-only-on-empty-answer)   which `Rules` the step uses (default current) → ok
   (env (<vis> …))                     `Choice.env`   (a `*` entry = everything)            → snapshot
   (worker i vis fuel (ordQ…) (ordE…)) `Choice.worker` (`*` for vis = everything)           → snapshot
@@ -55,6 +56,7 @@ def showEvt : Evt → String
   | .await a ts => s!"await:{a}:{showNats ts}"
   | .procResults a rs => s!"results:{a}:{showResults rs}"
   | .resultResp r res => s!"resp:{r}:{showRes res}"
+  | .exited p => s!"exited:{p}"
 
 def procClass (w : WorkerSt) (p : Pid) (x : Proc) : String :=
   if p ∈ w.queue then "run"
@@ -160,9 +162,11 @@ def visNat : Sx → Option Nat
 structure St where
   sys : Option Sys := none
   rules : Rules := Rules.current
+  /-- the variant of the runtime the model mirrors (`(cfg <flag> on|off)`); default: the code at HEAD -/
+  cfg : Cfg := Cfg.head
 
 def stepOf (st : St) (s : Sys) (c : Choice) : St × String :=
-  let s' := sysStepWith st.rules s c
+  let s' := @sysStepWith st.cfg st.rules s c
   ({ st with sys := some s' }, snapshot s')
 
 def step (st : St) (req : List Sx) : St × String :=
@@ -173,6 +177,8 @@ def step (st : St) (req : List Sx) : St × String :=
       let s := Sys.init n prog r
       ({ st with sys := some s }, snapshot s)
     | _, _, _ => (st, "bad-request")
+  | [.list [.atom "cfg", .atom "exit-reports", .atom "on"]] => ({ st with cfg := { st.cfg with exitReports := true } }, "ok")
+  | [.list [.atom "cfg", .atom "exit-reports", .atom "off"]] => ({ st with cfg := { st.cfg with exitReports := false } }, "ok")
   | [.list [.atom "mode", .atom "current"]] => ({ st with rules := Rules.current }, "ok")
   | [.list [.atom "mode", .atom "replace-answers"]] => ({ st with rules := Rules.replaceAnswers }, "ok")
   | [.list [.atom "mode", .atom "mark-active-on-empty"]] => ({ st with rules := Rules.markActiveOnEmpty }, "ok")
